@@ -223,6 +223,9 @@ func mustTemplates(eco string) []string {
 		return []string{"{d}", "{d}.{d}", "{d}.{d}.{d}"}
 	case "cran":
 		return []string{"{d}.{d}", "{d}.{d}.{d}"}
+	case "github":
+		// semantic and date-shaped versions are two kinds with their own rules
+		return []string{"{d}.{d}.{d}", "{d}{d}{d}{d}.{d}{d}.{d}{d}", "{d}{d}{d}{d}.{d}.{d}"}
 	case "hex":
 		return []string{"{d}.{d}", "{d}.{d}.{d}"}
 	}
